@@ -253,7 +253,9 @@ class CGraph:
 
         utpm_x_list = []
         for xi in x_list:
-            element = numpy.asarray(xi).reshape((1,1) + numpy.shape(xi))
+            # a copy: the forward sweep of a program that writes into its independent variable
+            # must not write into the caller's array
+            element = numpy.array(xi).reshape((1,1) + numpy.shape(xi))
             if element.dtype.kind in 'iub':
                 # integer input (e.g. a list of ints): propagate in floating point
                 # like the other drivers do
